@@ -4,6 +4,8 @@
 package vfev
 
 import (
+	"runtime/debug"
+	"strings"
 	"encoding/json"
 	"fmt"
 	"os"
@@ -193,3 +195,25 @@ func (r *Report) Finish() {
 
 // Fail marks the part as a machinery failure (exit 3 in the driver), not a violation.
 func (r *Report) Fail(msg string) { r.mu.Lock(); r.Fatal = msg; r.mu.Unlock() }
+
+// RecoverPanic turns a panic of the code under test into a violation (use as `defer r.RecoverPanic()`
+// right after `defer r.Finish()`): the enumeration stops there, the run reports exit 1, not a
+// machinery failure.
+func (r *Report) RecoverPanic() {
+	if p := recover(); p != nil {
+		stack := string(debug.Stack())
+		site := "unknown"
+		for _, l := range strings.Split(stack, "\n") {
+			l = strings.TrimSpace(l)
+			if strings.Contains(l, "/server/") && strings.Contains(l, ".go:") && !strings.Contains(l, "zzverif") {
+				f := l[strings.LastIndex(l, "/")+1:]
+				if i := strings.Index(f, " "); i > 0 {
+					f = f[:i]
+				}
+				site = f
+				break
+			}
+		}
+		r.Violation("panic:"+site, fmt.Sprintf("the code under test panicked: %v", p), stack)
+	}
+}
